@@ -686,6 +686,12 @@ func runC05(c *Check) {
 	// ---- R8 / R6c (added after seeded round 2)
 	c.ruleInputsDeleteGuard("R8")
 	c.ruleConflictsAlwaysHandled("R6")
+	c.ruleLoopVisitsAll("R9", "spynode.(*Node).processUnconfirmedTx", func(v ssa.Value) bool {
+		return derivesFromCall(v, "(*state.MemPool).AddTransaction") != nil
+	}, "conflict", "the loop over the txs conflicting with a new unconfirmed tx can be left early without an error: the conflicts after that point are never marked / reported unsafe")
+	c.ruleAccumulatorSelfAppend("R10", "state.(*MemPool).AddTransaction", "state.appendIfNotContained")
+	c.ruleSpliceRemovesOne("R11", 1, "state")
+	c.ruleNewEntriesRegistered("R12")
 
 	// ---- R7 lockset
 	c.lockset("R7", "state", "MemPool", "mutex", c.structFields("state", "MemPool", "mutex"), []string{"state"}, nil, 20)
